@@ -18,6 +18,7 @@ EXPLANATION = (
     "option and the Csp arm of parse adds FROM_DOCUMENT."
     " Later additions: csp rules that differ only by tag are not de-duplicated anywhere between parser and store (C01.7, C01.9); the caller's tag set is re-applied after every load (C07.4); the matching loop of get_csp_directives visits every rule (no truncating adapter, no break)."
     ' Round 6: no cell-typed field of Blocker can remember a fact about the csp list (C06.1 borrowed).'
+    ' Round 8: the type gate as a table over all request types (the csp list is probed exactly for Document and Subdocument); add_filter routes csp rules like a batch (C06.4 borrowed).'
 )
 NOT_DECIDED = "Which csp rules match a concrete request (C01-C03); the order of directives is unspecified by the property."
 
